@@ -7,6 +7,7 @@ EXTENDS Optimizer, TLCExt, SequencesExt
 CONSTANTS ModelSel,     \* which of the three model parameters the generated calls name (the observation parameter always)
           BoundSel,     \* subset of 1..4 selecting bound pairs
           FactorSel, PriorSel,
+          ModeSel,      \* subset of 1..7 selecting the spellings of the mode argument
           KSel,         \* UpdateModel exponents are {k - 3 : k \in KSel} (cfg files have no negative literals)
           MaxLevel,     \* history length bound (exhaustive) / printed length (export)
           Export        \* "none" | "all" (print every history of length MaxLevel-1) | "sim"
@@ -16,10 +17,10 @@ MCParams == AllModel \o <<"offset">>
 MCCallParams == {AllModel[i] : i \in ModelSel} \cup {"offset"}
 MCObsParams == {"offset"}
 MCDerived == <<"logg", "mu">>
-FullSetting == [planet_radius |-> [fit |-> TRUE,  mode |-> "linear", lo |-> -1,  hi |-> 1],
-                T             |-> [fit |-> FALSE, mode |-> "linear", lo |-> 2,   hi |-> 4],
-                H2O           |-> [fit |-> FALSE, mode |-> "log",    lo |-> -12, hi |-> -1],
-                offset        |-> [fit |-> FALSE, mode |-> "linear", lo |-> -3,  hi |-> 0]]
+FullSetting == [planet_radius |-> [fit |-> TRUE,  mode |-> "linear", lo |-> -1,  hi |-> 1, raw |-> FALSE],
+                T             |-> [fit |-> FALSE, mode |-> "linear", lo |-> 2,   hi |-> 4, raw |-> FALSE],
+                H2O           |-> [fit |-> FALSE, mode |-> "log",    lo |-> -12, hi |-> -1, raw |-> FALSE],
+                offset        |-> [fit |-> FALSE, mode |-> "linear", lo |-> -3,  hi |-> 0, raw |-> FALSE]]
 FullValue   == [planet_radius |-> 0, T |-> 3, H2O |-> -3, offset |-> -2]
 MCPSet == {MCParams[i] : i \in 1..Len(MCParams)}
 MCInitSetting == [p \in MCPSet |-> FullSetting[p]]
@@ -33,6 +34,12 @@ AllPriors  == <<[kind |-> "Uniform",     a |-> -2, b |-> 2],
                 [kind |-> "LogUniform",  a |-> -5, b |-> -1],
                 [kind |-> "Gaussian",    a |-> 1,  b |-> 0],
                 [kind |-> "LogGaussian", a |-> -3, b |-> 1]>>
+\* <<mode, positions written in upper case>>: linear, log, LOG, Linear, Log, LINEAR, lOg
+AllModeCalls == << <<"linear", {}>>, <<"log", {}>>, <<"log", {1,2,3}>>, <<"linear", {1}>>, <<"log", {1}>>,
+                   <<"linear", 1..6>>, <<"log", {2}>> >>
+MCModeCalls == {AllModeCalls[i] : i \in ModeSel}
+MCInvalidModes == {"logarithmic", "lin", ""}
+MCInvalidOne == {"logarithmic"}
 MCBoundPairs == {AllBounds[i] : i \in BoundSel}
 MCFactors    == {AllFactors[i] : i \in FactorSel}
 MCUserPriors == {AllPriors[i] : i \in PriorSel}
@@ -44,28 +51,32 @@ Emit == (Export = "all" /\ Len(hist) = MaxLevel - 1) => PrintT(<<"BEH", ToJson([
 HistBound == Len(hist) < MaxLevel
 
 \* export of all short histories: every known call, one unknown call of each family
-ExNext == KnownCall \/ Unknown("enable_fit", "nope") \/ Unknown("disable_derived", "nope")
+\* and update_model with a vector one entry longer than the fitted set (refused; the history goes on)
+ExWrong == \E k \in K : UpdateWrong([i \in 1..(Len(compiled) + 1) |-> k])
+ExNext == KnownCall \/ Unknown("enable_fit", "nope") \/ Unknown("disable_derived", "nope") \/ ExWrong
 ExSpec == Init /\ [][ExNext]_vars
 
 \* export of "preset" histories (binding C): any subset of the parameters is made the fitted set (only
 \* observation parameters, none, all, ...), then one optional setting / set_prior call, compile, and one of
 \* update_model / write_back / a second compile; after every call all views are evaluated
 SettingLite == \E p \in CallParams :
-                  \/ \E m \in {"linear", "log"} : SetMode(p, m)
+                  \/ \E mc \in ModeCalls : SetMode(p, mc[1], mc[2])
                   \/ \E b \in BoundPairs : SetBoundary(p, b)
                   \/ \E f \in Factors : SetFactorBoundary(p, f)
+\* a vector one entry shorter (if that is not empty) / one entry longer than the fitted set
+PresetWrong == \E vec \in WrongVecs : Len(vec) \in {Len(compiled) - 1, Len(compiled) + 1} /\ UpdateWrong(vec)
 PresetNext == CASE Len(hist) = 0 -> PresetCall
                 [] Len(hist) = 1 -> SettingLite \/ PriorCall \/ Compile
                 [] Len(hist) = 2 -> Compile
-                [] OTHER         -> UpdateCall \/ WriteBack \/ Compile
+                [] OTHER         -> UpdateCall \/ WriteBack \/ Compile \/ PresetWrong
 PresetSpec == Init /\ [][PresetNext]_vars
 
 \* simulation: choose the class of call first so that compile / update_model are not drowned
 \* by the many argument combinations of the setters
-Classes == {"setting", "setting2", "prior", "derived", "compile", "compile2", "update", "writeback", "unknown", "preset"}
+Classes == {"setting", "setting2", "prior", "derived", "compile", "compile2", "update", "writeback", "unknown", "preset", "wrongupdate"}
 \* (the history is printed when the behaviour's last state is expanded: once per behaviour)
 SimNext == /\ (Export = "sim" /\ Len(hist) = MaxLevel - 1) => PrintT(<<"BEH", ToJson([h |-> hist])>>)
-           /\ LET c == RandomElement(Classes) IN
+           /\ \E c \in {RandomElement(Classes)} :      \* (a bound variable: drawn once per step, not once per CASE arm)
              CASE c \in {"setting", "setting2"} -> SettingCall
                [] c = "prior"     -> PriorCall
                [] c = "derived"   -> DerivedCall
@@ -73,6 +84,7 @@ SimNext == /\ (Export = "sim" /\ Len(hist) = MaxLevel - 1) => PrintT(<<"BEH", To
                [] c = "update"    -> UpdateCall
                [] c = "writeback" -> WriteBack
                [] c = "preset"    -> PresetCall
-               [] OTHER           -> UnknownCall
+               [] c = "wrongupdate" -> LET n == RandomElement(WrongLens) IN \E vec \in [1..n -> K] : UpdateWrong(vec)
+               [] OTHER           -> UnknownCall \/ BadModeCall
 SimSpec == Init /\ [][SimNext]_vars
 =============================================================================
